@@ -578,6 +578,12 @@ pub fn gen_c06(seed: u64) -> Scenario {
                     }
                     dead.extend(leaves.iter().copied());
                 }
+                if a.release != Release::Forget && g.rng.chance(8, 100) {
+                    // key-affecting calls made from a destructor while an unrelated panic unwinds
+                    steps.push(Step::InUnwind(Box::new(Step::Acquire(a))));
+                    steps.push(Step::Key(KeyOp::Get));
+                    continue;
+                }
                 steps.push(Step::Acquire(a));
             }
         }
